@@ -7,8 +7,7 @@ EXTRA = {"C04-2": ["C09"], "C03-1": ["C13"]}
 names = sorted(d for d in os.listdir(os.path.join(ROOT, "seeded")) if os.path.isdir(os.path.join(ROOT, "seeded", d)))
 if len(sys.argv) > 1:
     names = [n for n in names if n in sys.argv[1:]]
-rows = []
-for n in names:
+def one(n):
     d = os.path.join(ROOT, "seeded", n)
     pid = n.split("-")[0]
     ids = [pid] + EXTRA.get(n, [])
@@ -49,8 +48,12 @@ for n in names:
     meta["checks_run"] = {"command": "py/mutcheck.sh seeded/%s/patch.diff %s" % (n, " ".join(ids)), "results": res}
     meta["detected"] = bool(res.get(pid, {}).get("violation"))
     json.dump(meta, open(meta_path, "w"), indent=1)
-    rows.append((n, meta.get("summary", ""), meta.get("needs", ""), res))
     print(n, {k: v.get("violation", False) for k, v in res.items()}, flush=True)
+    return (n, meta.get("summary", ""), meta.get("needs", ""), res)
+
+from concurrent.futures import ThreadPoolExecutor
+with ThreadPoolExecutor(max_workers=int(os.environ.get('SEED_JOBS', '4'))) as ex:
+    rows = list(ex.map(one, names))
 with open(os.path.join(ROOT, "seeded", "INDEX.md"), "w") as f:
     f.write("# Seeded changes\n\nEach directory holds an independently written change to vulcand/oxy that breaks one property while compiling and "
             "passing the existing suite (patch.diff), its demonstration (demo_test.go.txt, first line = path inside the repo) and meta.json "
